@@ -182,7 +182,7 @@ def pyfftw_call(array_in, array_out, direction='forward', axes=None,
         [planning_effort], direction, halfcomplex, array_in.ndim)
     must_copy_array_in = fftw_plan_in is None and planner_destroys
 
-    if must_copy_array_in and not array_in_copied:
+    if must_copy_array_in:
         plan_arr_in = np.empty_like(array_in)
         flags = [_flag_odl_to_pyfftw(planning_effort), 'FFTW_DESTROY_INPUT']
     else:
